@@ -326,17 +326,20 @@ class Judge:
         if s is None or s.size != N:
             why = "shape"
         else:
-            k = np.rint(s - 1.5)
-            hit = (s - 1.5 == k) & (k >= 0) & (k < n)
-            pos = np.flatnonzero(hit)
-            idx = k[pos].astype(int)
+            # every probe value must sit in exactly one free entry (what the implied entries hold is judged separately,
+            # so a coincidence between an implied value and a probe value cannot confuse the placement)
+            fp = free_positions(t, d, m, flag)
+            sf = s[fp]
+            k = np.rint(sf - 1.5)
+            hit = (sf - 1.5 == k) & (k >= 0) & (k < n)
+            pos = fp[np.flatnonzero(hit)]
+            idx = k[hit].astype(int)
             cnt = np.bincount(idx, minlength=n) if n else np.zeros(0, int)
             if n and not np.all(cnt == 1):
                 why = "placement-not-bijective-onto-free-entries"
             else:
                 L = np.zeros(n, dtype=int)
                 L[idx] = pos
-                fp = free_positions(t, d, m, flag)
                 if not np.array_equal(np.sort(L), fp):
                     why = "placement-not-bijective-onto-free-entries"
                 else:
@@ -761,7 +764,8 @@ def install(ctx):
                 return
             ctx.truth("generate_from_var.type", True)
             ctx.truth("generate_from_var.flag", bool(result.on_para_eq_constraint) == bool(flag), key=f"{kbase}:object-carries-other-flag")
-            ctx.truth("generate_from_var.c_sys", result.composite_system is c_sys, key=f"{kbase}:other-composite-system")
+            ctx.truth("generate_from_var.c_sys", result.composite_system is c_sys or getattr(result.composite_system, "dim", None) == c_sys.dim,
+                      key=f"{kbase}:other-composite-system")
             J.judge_from_var("generate_from_var", t, c_sys, b["var"], flag, flat_raw(t, gen.raw_params(result), c_sys.dim))
 
         hs.method(owner, "generate_from_var", post=post, label=label)
@@ -861,7 +865,7 @@ def install(ctx):
             return
         new = J.set_members(result)
         same = all(len(old[mo]) == len(new[mo]) and all(
-            type(x) is type(y) and x.composite_system is y.composite_system and bool(x.on_para_eq_constraint) == bool(y.on_para_eq_constraint)
+            type(x) is type(y) and x.composite_system.dim == y.composite_system.dim and bool(x.on_para_eq_constraint) == bool(y.on_para_eq_constraint)
             for x, y in zip(old[mo], new[mo])) for mo in MODES)
         ctx.truth(lab + ".structure", same, key=f"{lab}:members-changed-type-or-flag-or-system")
         if not same:
@@ -974,7 +978,7 @@ def shards(tier, seed):
     for f in flags:
         for m in MS:
             idx("MProcess", [("S23", f, m)], 6 * m)
-    n = {"quick": 80, "thorough": 1000}[tier]
+    n = {"quick": 80, "thorough": 3000}[tier]
     for t in TYPES:
         for s in SHAPE_NAMES:
             big = t in ("Gate", "MProcess") and s in ("S2", "S23")
